@@ -16,6 +16,8 @@ N_THOROUGH = 2000000
 WALL_QUICK = 100
 WALL_THOROUGH = 1500
 
+REACH_FOCUS = {'ebb3_serial': ['connect', 'parse_version', 'min_version', 'disconnect', '_get_port_name'], 'ebb_serial': ['min_version', 'queryVersion', 'query_nickname', 'write_nickname', 'reboot'], 'ebb_motion': ['servo_timeout', 'queryVoltage']}
+
 RULE = ("Three scenario families. (connect) 1..3 devices - EBBs with firmware triples around every threshold and "
         "with multi-digit components, foreign devices, silent devices, unopenable or absent ports - and 1..2 EBB3 "
         "objects; connect attempts under handshake reply plans (prompt, first reply late, both late, absent, non-EBB "
@@ -82,6 +84,7 @@ def check(scn, hist):
     slot_port = {}
     e3_ops = set()
     op_kind = {}
+    cur = {b['port']: b for b in scn['world']['boards']}     # device currently behind each port name
     plugged = {b['port']: b.get('plugged', True) for b in scn['world']['boards']}
     open_fails = {b['port']: b.get('open_fails', False) for b in scn['world']['boards']}
     for i, rec in enumerate(hist.ops):
@@ -97,13 +100,15 @@ def check(scn, hist):
                 plugged[op['port']] = True
             elif op['what'] == 'open_fails':
                 open_fails[op['port']] = bool(op['on'])
+            elif op['what'] == 'replace_device':
+                cur[op['port']] = dict(op['spec'], port=op['port'])
         elif op['op'] == 'call':
             e3_ops.add(oid)
             m = op['m']
             b, a = rec['before'], rec['after']
             if m == 'connect':
                 port = a['port_name']
-                spec = spec_of(scn, port) if port is not None else None
+                spec = cur.get(port) if port is not None else None
                 supported = bool(spec is not None and spec.get('kind', 'ebb') == 'ebb' and tuple(spec['fw']) >= MIN
                                  and 'version_text' not in spec)
                 if rec['exc'] is not None:
@@ -149,7 +154,7 @@ def check(scn, hist):
             port = slot_port.get(args[0]['slot']) if args and isinstance(args[0], dict) else None
             if port is None:
                 continue
-            spec = spec_of(scn, port)
+            spec = cur.get(port)
             if spec is None or spec.get('kind', 'ebb') != 'ebb':
                 continue
             fw = tuple(spec['fw'])
@@ -182,7 +187,8 @@ def check(scn, hist):
                     out.append(V(PROP, 'gate_blocks_supported', fn, oid,
                                  '%s not sent to firmware %r (>= %r): wire %r' % (name, spec['fw'], gate, reqs)))
     # device-side invariant: an unsupported device gets nothing but version probes from the EBB3 layer
-    for spec, dev in zip(scn['world']['boards'], hist.devices):
+    for dev in hist.all_devices:
+        spec = dev['spec']
         supported = spec.get('kind', 'ebb') == 'ebb' and tuple(spec['fw']) >= MIN and 'version_text' not in spec
         if supported:
             continue
@@ -211,9 +217,9 @@ def _pending_before(hist, i, port):
 
 
 def _bootloader(hist, port, oid):
-    for d in hist.devices:
-        if d['port'] == port:
-            return any(e[2].strip().upper() == 'BL' and e[1] < oid for e in d['log'])
+    for d in hist.all_devices:
+        if d['port'] == port and any(e[2].strip().upper() == 'BL' and e[1] < oid for e in d['log']):
+            return True
     return False
 
 
@@ -438,6 +444,12 @@ def gen_connect(rng, idx):
                 ops.append(call(k, m, a, kw))
         elif r < 0.7:
             ops.append(call(k, 'disconnect'))
+            if nobj == 1 and rng.random() < 0.3:
+                b = rng.choice(boards)
+                nb_ = make_devices(rng, 1, style, MIN)[0]
+                nb_['port'] = b['port']
+                nb_.pop('plugged', None)
+                ops.append({'op': 'env', 'what': 'replace_device', 'port': b['port'], 'spec': nb_})
         elif r < 0.8:
             ops.append(call(k, 'min_version', [fstr(gen_triple(rng, around=MIN))]))
         elif r < 0.85:
@@ -527,12 +539,20 @@ def gen_gates(rng, idx):
         boards.append(ebb_spec(PORT_NAMES[style][i], fw=fw, nick=rng.choice(['', 'Nick%d' % i]), style=style))
     world = {'boards': boards}
     ops = [{'op': 'lopen', 'slot': i, 'port': boards[i]['port']} for i in range(nb)]
+    swap = rng.random() < 0.35
     for _ in range(rng.randint(1, 10)):
         s = rng.randrange(nb)
         fn = rng.choice(list(GATES))
         ops.append(gate_call(rng, fn, s))
         if fn == 'reboot':
             ops.append({'op': 'env', 'what': 'quiesce'})
+        if swap and rng.random() < 0.3:
+            # the port is closed, another board (other firmware) is plugged in and gets the same port name
+            fw = gen_triple(rng, around=rng.choice([(2, 5, 5), (2, 6, 0), (2, 2, 3), (2, 5, 4), (2, 1, 0), (2, 10, 0)]))
+            ops.append(lcall('ebb_serial.closePort', [{'slot': s}]))
+            ops.append({'op': 'env', 'what': 'replace_device', 'port': boards[s]['port'],
+                        'spec': ebb_spec(boards[s]['port'], fw=fw, nick=rng.choice(['', 'Swapped']), style=style)})
+            ops.append({'op': 'lopen', 'slot': s, 'port': boards[s]['port']})
     mk_ops(ops)
     scn = {'prop': PROP, 'world': world, 'ops': ops, 'faults': {}, 'cfg': {'family': 'gates'}, 'snap_dev': False}
     mode = rng.choice(['prompt', 'prompt', 'slow', 'faulty'])
@@ -588,7 +608,72 @@ def sweep_cells(tier):
     cells += [['gates', i] for i in range(len(ORDER_FW))]
     kinds = ['old', 'min', 'min-1', 'multi', 'foreign', 'silent', 'open_fails', 'absent', 'v2_99']
     cells += [['connect', k] for k in kinds]
+    cells += [['swap_gate', i] for i in range(len(SWAP_PAIRS))]
+    cells += [['swap_connect', k] for k in ('old', 'min-1', 'foreign', 'silent', 'multi_ok')]
     return cells
+
+
+SWAP_PAIRS = [([2, 8, 1], [2, 5, 3]), ([2, 5, 3], [2, 8, 1]), ([2, 6, 0], [2, 5, 10]), ([2, 10, 0], [2, 2, 2]),
+              ([2, 2, 2], [2, 10, 0]), ([3, 0, 2], [2, 1, 9])]
+
+
+def _swap_gate(x):
+    fw_a, fw_b = SWAP_PAIRS[x]
+    port = '/dev/ttyACM0'
+    b0 = ebb_spec(port, fw=fw_a, nick='A', style='linux')
+    b1 = ebb_spec(port, fw=fw_b, nick='B', style='linux')
+    calls = [lcall('ebb_motion.servo_timeout', [{'slot': 0}, 60000]),
+             lcall('ebb_motion.queryVoltage', [{'slot': 0}]),
+             lcall('ebb_serial.query_nickname', [{'slot': 0}]),
+             lcall('ebb_serial.write_nickname', [{'slot': 0}, 'Bob']),
+             lcall('ebb_serial.min_version', [{'slot': 0}, '2.6.0']),
+             lcall('ebb_serial.min_version', [{'slot': 0}, '2.5.5'])]
+    for c in calls:
+        ops = [{'op': 'lopen', 'slot': 0, 'port': port}, dict(c), dict(c),
+               lcall('ebb_serial.closePort', [{'slot': 0}]),
+               {'op': 'env', 'what': 'replace_device', 'port': port, 'spec': b1},
+               {'op': 'lopen', 'slot': 0, 'port': port}, dict(c), dict(c)]
+        yield {'prop': PROP, 'world': {'boards': [dict(b0)]}, 'ops': mk_ops(ops), 'faults': {}, 'snap_dev': False}
+
+
+def _swap_connect(kind):
+    MIN = min_supported()
+    port = '/dev/ttyACM0'
+    good = ebb_spec(port, fw=list(MIN), nick='Good', style='linux')
+    new = ebb_spec(port, fw=[2, 8, 1], nick='New', style='linux')
+    if kind == 'min-1':
+        t = list(MIN)
+        if t[2] > 0:
+            t[2] -= 1
+        elif t[1] > 0:
+            t[1], t[2] = t[1] - 1, 99
+        else:
+            t = [t[0] - 1, 99, 99]
+        new['fw'] = t
+    elif kind == 'multi_ok':
+        new['fw'] = [MIN[0], MIN[1] + 10, 0]
+    elif kind in ('foreign', 'silent'):
+        new['kind'] = kind
+        new['desc'] = 'EiBotBoard'
+        new['hwid'] = 'USB VID:PID=04D8:FD92 LOCATION=2-1'
+    tail = [call(0, 'min_version', ['3.0.2']), call(0, 'xy_move', [1, 2, 3]), call(0, 'query', ['QS']),
+            call(0, 'var_write', [1, 2])]
+    for first, second in ((good, new), (new, good)):
+        ops = [{'op': 'new', 'obj': 0}]
+        c = call(0, 'connect')
+        c['nth'] = 1
+        ops += [c] + [dict(t) for t in tail] + [call(0, 'disconnect'),
+                                                {'op': 'env', 'what': 'replace_device', 'port': port, 'spec': dict(second)}]
+        c = call(0, 'connect')
+        c['nth'] = 2
+        ops += [c] + [dict(t) for t in tail]
+        base = {'prop': PROP, 'world': {'boards': [dict(first)]}, 'ops': mk_ops(ops), 'faults': {}, 'snap_dev': False}
+        yield base
+        cid = [o['id'] for o in base['ops'] if o.get('m') == 'connect'][1]
+        for rf in ({'drop': 'all'}, {'delay': [1]}, {'stale': {'text': 'OK\r\n', 'instead': True}}):
+            f1 = dict(rf, at=[cid, 1])
+            yield dict(base, faults={'reply': [f1]})
+            yield dict(base, faults={'reply': [f1, dict(rf, at=[cid, 2])]})
 
 
 def sweep_expand(cell):
@@ -611,6 +696,14 @@ def sweep_expand(cell):
         for thr in ORDER_THR:
             ops.append(call(0, 'min_version', [fstr(thr)]))
         yield {'prop': PROP, 'world': {'boards': [b0]}, 'ops': mk_ops(ops), 'faults': {}, 'snap_dev': False}
+        return
+    if what == 'swap_gate':
+        for scn in _swap_gate(x):
+            yield scn
+        return
+    if what == 'swap_connect':
+        for scn in _swap_connect(x):
+            yield scn
         return
     if what == 'gates':
         fw = ORDER_FW[x]
